@@ -20,6 +20,7 @@ func C06(r *core.Report) {
 		"R2 Close waits for the background writer before the final synchronous flush of the accumulator, and sets the exit flag before waiting; R3 each batch is reversed (newest first) before it is serialised; R4 the batch handed to the background goroutine is a fresh copy. " +
 		"R5 the synchronous partial flush in Push is taken only under !popRank.has(key) and every hand-off of a full batch to the background writer ranks its address (popRank.Incr) - the two halves of the mechanism that keeps a short newer batch from overtaking a parked older one. " +
 		"R6 LinkedLog.Put orders its batches by address with an unstable sort, so every caller passes one batch per call or a slice that provably never holds two batches of one address (Has(key) test that flushes before parking). " +
+		"R7 read re-entrancy - the linked-log and address readers shared by concurrent requests use no storage of the shared object as scratch space. " +
 		"Not decided: exactly-once for all push histories and timings, zstd round trip, whether the rank keeps every address that still has a parked batch (purge arithmetic)."
 	r.Assumptions = []string{"channel FIFO and the Go memory model are trusted", "tidwall/hashmap is not safe for concurrent use"}
 	c06Prefix(r)
@@ -29,6 +30,11 @@ func C06(r *core.Report) {
 	c06Handoff(r)
 	c06PartialFlushGuard(r)
 	c06OneBatchPerKeyPerPut(r)
+	for _, k := range []string{"gsfa/linkedlog.(*LinkedLog).ReadWithSize", "gsfa.(*GsfaReader).Get", "gsfa.(*GsfaReader).GetBeforeUntil"} {
+		if f := r.Anchor("C06.R7", k); f != nil {
+			checkReentrant(r, "C06.R7", f, "reads")
+		}
+	}
 	r.Floor("C06.R0", 5)
 	r.Floor("C06.R1", 3)
 	r.Floor("C06.R2", 2)
@@ -36,6 +42,7 @@ func C06(r *core.Report) {
 	r.Floor("C06.R4", 1)
 	r.Floor("C06.R5", 2)
 	r.Floor("C06.R6", 3)
+	r.Floor("C06.R7", 3)
 }
 
 func isUvarintWidthFunc(nm string) bool {
